@@ -467,6 +467,30 @@ func miscHeaders(r *c.Rng, status int) [][2]string {
 	return out
 }
 
+// cacheHeaders: what an IdP, or a gateway / CDN in front of it, may say about re-using an answer
+func cacheHeaders(r *c.Rng) [][2]string {
+	sets := [][][2]string{
+		{{"Cache-Control", "max-age=300"}},
+		{{"Cache-Control", "public, max-age=3600"}},
+		{{"Cache-Control", "private, max-age=60"}},
+		{{"Cache-Control", "max-age=31536000, immutable"}},
+		{{"Cache-Control", "s-maxage=600"}},
+		{{"Cache-Control", "max-age=1"}, {"Age", "0"}},
+		{{"Cache-Control", "max-age=0"}},
+		{{"Cache-Control", "no-cache, no-store"}, {"Pragma", "no-cache"}},
+		{{"Cache-Control", "max-age=120"}, {"Vary", "Authorization"}},
+		{{"Cache-Control", "max-age=120"}, {"Vary", "Accept-Encoding"}},
+		{{"Cache-Control", "max-age=120"}, {"Vary", "*"}},
+		{{"Expires", "Fri, 01 Jan 2100 00:00:00 GMT"}},
+		{{"Expires", "Fri, 01 Jan 2100 00:00:00 GMT"}, {"Last-Modified", "Mon, 01 Jan 2001 00:00:00 GMT"}, {"ETag", `"v1"`}},
+		{{"ETag", `"v1"`}, {"Last-Modified", "Mon, 01 Jan 2001 00:00:00 GMT"}},
+		{{"Cache-Control", "MAX-AGE=300"}, {"Date", "Mon, 01 Jan 2001 00:00:00 GMT"}},
+		{{"Cache-Control", "max-age=300"}, {"Cache-Control", "no-store"}},
+		{{"Surrogate-Control", "max-age=300"}, {"CDN-Cache-Control", "max-age=300"}},
+	}
+	return sets[r.Intn(len(sets))]
+}
+
 // dressAnswer decides the response headers and the framing of an answer that is otherwise complete
 func dressAnswer(r *c.Rng, a *answerSpec) string {
 	if a.Transport != 0 {
@@ -480,6 +504,10 @@ func dressAnswer(r *c.Rng, a *answerSpec) string {
 	if r.Chance(0.2) {
 		a.Headers = append(a.Headers, miscHeaders(r, a.Status)...)
 		note = append(note, "misc-headers")
+	}
+	if r.Chance(0.15) {
+		a.Headers = append(a.Headers, cacheHeaders(r)...)
+		note = append(note, "cache-headers")
 	}
 	if r.Chance(0.1) {
 		a.Wire = 1 + r.Intn(wireCount-1)
@@ -681,7 +709,99 @@ func genMember(w *world, r *c.Rng, cfg int, member int) scenario {
 	return sc
 }
 
-// gen draws one group: a provider configuration, 1-4 logins in flight at once, a release order
+// rvOf renders a field class again (used to re-issue an earlier answer with something changed)
+func rvOf(r *c.Rng, v jv) rv {
+	switch v.Kind {
+	case "str":
+		return vStr(r, v.S)
+	case "bool":
+		return vBool(v.B)
+	case "num":
+		return vNum(v.N)
+	case "strs":
+		return vStrs(r, v.L)
+	case "other":
+		return vOther(r)
+	}
+	return rv{jv{Kind: "missing"}, ""}
+}
+
+// variant derives the next login of a SEQUENCE from the previous one: the same provider object is
+// asked again with something changed in between. Anything the code under test remembers from the
+// previous login (a cached answer, a pooled struct, a memoised token) shows as a wrong verdict here.
+func variant(w *world, r *c.Rng, cfg int, member int, prev scenario) scenario {
+	cur = genCtx{cfg: cfgPool[cfg], member: member}
+	sc := prev
+	sc.TokIntended, sc.UIIntended = nil, nil
+	sc.ErrParam, sc.Later = false, 0
+	uc := probeUser(prev.UI.Raw)
+	tc := probeTok(prev.Tok.Raw)
+	how := r.Intn(8)
+	note := ""
+	newPerson := func() { // another code, another access token; the rest of the token answer as before
+		sc.Code = fmt.Sprintf("code-seq-m%d", member)
+		if tc.JSON {
+			acc := vStr(r, fmt.Sprintf("at-seq-m%d", member))
+			sc.Tok.Raw = renderObject(r, []kv{{"access_token", acc}, {"refresh_token", rvOf(r, tc.Refresh)}, {"expires_in", rvOf(r, tc.Expires)}, {"id_token", rvOf(r, tc.IDToken)}})
+		}
+	}
+	userinfo := func(email, verified, groups, username rv) {
+		sc.UI.Raw = renderObject(r, []kv{{"email", email}, {"email_verified", verified}, {"groups", groups}, {"username", username}})
+	}
+	switch {
+	case how == 0 || !uc.JSON:
+		return genMember(w, r, cfg, member) // an unrelated login
+	case how == 1: // the same person's profile, one member left out
+		drop := r.Intn(4)
+		f := []rv{rvOf(r, uc.Email), rvOf(r, uc.Verified), rvOf(r, uc.Groups), rvOf(r, uc.Username)}
+		f[drop] = rv{jv{Kind: "missing"}, ""}
+		newPerson()
+		userinfo(f[0], f[1], f[2], f[3])
+		note = "previous profile without " + []string{"email", "email_verified", "groups", "username"}[drop] + ", new code and token"
+	case how == 2: // another person, everything else as before (headers, framing, status)
+		newPerson()
+		userinfo(vStr(r, pickEmail(r)), rvOf(r, uc.Verified), rvOf(r, uc.Groups), rvOf(r, uc.Username))
+		note = "another person, answers otherwise as before"
+	case how == 3: // another person whom the IdP does not vouch for
+		newPerson()
+		switch r.Intn(3) {
+		case 0:
+			sc.UI = answerSpec{Status: []int{401, 403, 500, 429}[r.Intn(4)], Raw: []byte(`{"error":"invalid_token"}`)}
+			note = fmt.Sprintf("another person, userinfo answers %d", sc.UI.Status)
+		case 1:
+			userinfo(vStr(r, pickEmail(r)), vBool(false), rvOf(r, uc.Groups), rvOf(r, uc.Username))
+			note = "another person, not verified"
+		default:
+			userinfo(vStr(r, ""), rvOf(r, uc.Verified), rvOf(r, uc.Groups), rvOf(r, uc.Username))
+			note = "another person, empty e-mail"
+		}
+	case how == 4: // the SAME access token is presented again; the IdP has changed its mind about it
+		sc.Code = fmt.Sprintf("code-seq-m%d", member)
+		if r.Chance(0.5) {
+			sc.UI = answerSpec{Status: 401, Raw: []byte(`{"error":"invalid_token"}`)}
+			note = "same access token, userinfo now 401"
+		} else {
+			userinfo(vStr(r, pickEmail(r)), vBool(true), rvOf(r, uc.Groups), rvOf(r, uc.Username))
+			note = "same access token, userinfo now names somebody else"
+		}
+	case how == 5: // the same code once more; the IdP refuses the replay
+		sc.Tok = answerSpec{Status: 400, Raw: []byte(`{"error":"invalid_grant","error_description":"code already used"}`)}
+		note = "same code again, token endpoint answers 400"
+	case how == 6: // exactly the same login again
+		note = "the same login again"
+	default: // another person; the previous answers' headers are gone
+		newPerson()
+		userinfo(vStr(r, pickEmail(r)), rvOf(r, uc.Verified), rvOf(r, uc.Groups), rvOf(r, uc.Username))
+		sc.Tok.Headers, sc.UI.Headers, sc.Tok.Wire, sc.UI.Wire = nil, nil, 0, 0
+		note = "another person, plain answers"
+	}
+	sc.Note = "variant of the previous login: " + note
+	w.prepare(&sc)
+	return sc
+}
+
+// gen draws one group: a provider configuration and 1-4 logins that are either in flight at once
+// (with a release order) or run one after the other against the same provider object
 func gen(w *world, r *c.Rng) group {
 	for {
 		typ := r.Pick([]string{"google", "google", "okta", "cognito"})
@@ -699,12 +819,26 @@ func gen(w *world, r *c.Rng) group {
 		case x < 7:
 			k = 4
 		}
+		g.Sequential = k > 1 && r.Chance(0.5)
 		for i := 0; i < k; i++ {
-			m := genMember(w, r, g.Cfg, i)
-			if k > 1 && i > 0 && r.Chance(0.5) {
-				// several good logins at once are the interesting groups: bias towards usable answers
-				for t := 0; t < 3 && tokenKey(m) == ""; t++ {
-					m = genMember(w, r, g.Cfg, i)
+			var m scenario
+			switch {
+			case g.Sequential && i > 0:
+				m = variant(w, r, g.Cfg, i, g.Members[i-1])
+			default:
+				m = genMember(w, r, g.Cfg, i)
+				if k > 1 && (g.Sequential || (i > 0 && r.Chance(0.5))) {
+					// several good logins are the interesting groups: bias towards usable answers
+					for t := 0; t < 4 && (tokenKey(m) == "" || (g.Sequential && typ != "google" && (m.UIEff.Failed || m.UIEff.Status != 200))); t++ {
+						m = genMember(w, r, g.Cfg, i)
+					}
+				}
+				if g.Sequential && i == 0 && r.Chance(0.5) && m.UI.Transport == 0 {
+					// what the first login's answers say about re-use is what a later login may trip over
+					m.UI.Headers = append(m.UI.Headers, cacheHeaders(r)...)
+					m.Tok.Headers = append(m.Tok.Headers, cacheHeaders(r)...)
+					m.Note += " +cache-headers"
+					w.prepare(&m)
 				}
 			}
 			g.Members = append(g.Members, m)
@@ -925,6 +1059,33 @@ func corpus() []group {
 			g.Members = append(g.Members, m)
 		}
 		gs = append(gs, g)
+	}
+	// --- sequences: the same provider object is asked again with something changed in between
+	cacheSets := [][][2]string{
+		{{"Cache-Control", "max-age=300"}},
+		{{"Cache-Control", "public, max-age=3600"}, {"Age", "0"}},
+		{{"Expires", "Fri, 01 Jan 2100 00:00:00 GMT"}, {"ETag", `"v1"`}},
+		nil,
+	}
+	for _, cfg := range []int{1, 2, 10, 8, 0, 3} {
+		for ci, cs := range cacheSets {
+			alice := login(0, "alice@example.com", claims("alice@example.com", `,"email_verified":true`), ui("alice@example.com", `,"email_verified":true,"username":"alice","groups":["g1"]`))
+			alice.Tok.Headers, alice.UI.Headers = cs, cs
+			alice.Note = fmt.Sprintf("corpus: alice logs in; answers carry %v", cs)
+			mallory := login(1, "mallory@elsewhere.test", claims("mallory@elsewhere.test", `,"email_verified":true`), ui("mallory@elsewhere.test", `,"email_verified":true,"username":"mallory"`))
+			mallory.Note = "corpus: then mallory logs in (her own code and token)"
+			refused := login(2, "nobody@example.com", claims("nobody@example.com", `,"email_verified":false`), `{"error":"invalid_token"}`)
+			refused.UI.Status = 401
+			refused.Note = "corpus: then a login whose userinfo call is answered 401 (Google: whose payload is unverified)"
+			noflag := login(3, "carol@example.org", claims("carol@example.org", ``), ui("carol@example.org", `,"username":"carol"`))
+			noflag.Note = "corpus: then a profile / payload with an e-mail but no email_verified member"
+			again := alice
+			again.UI = answerSpec{Status: 401, Raw: []byte(`{"error":"invalid_token"}`)}
+			again.Tok = answerSpec{Status: 200, Raw: tokBody(func() *string { t := claims("alice@example.com", `,"email_verified":false`); return &t }(), "at-0")}
+			again.Note = "corpus: then alice's code and token once more, the IdP now refusing them (userinfo 401 / payload unverified)"
+			gs = append(gs, group{Cfg: cfg, Sequential: true, Members: []scenario{alice, mallory, refused, noflag, again},
+				Note: fmt.Sprintf("corpus: sequence on one provider object, cache headers set %d", ci)})
+		}
 	}
 	// --- response headers and framing: the unchanged code reads none of them; no answer may crash the request
 	hdrSets := [][][2]string{
